@@ -192,7 +192,98 @@ def rule_scope(ck, facts, R="C17.scope"):
     ck.floor(R, "functions_with_scopes", m, 1)
 
 
+def rule_alias_export(ck, facts):
+    R = "C17.alias-export"
+    ck.rule(R, "in the program flattener, on every path a module-qualified key (result of mangle_qualified_name) inserted into use_alias_map is also inserted into visibility_map: a name made reachable through a module path always carries a visibility record")
+    from ..symex import PathLimit, SymEx, show
+
+    lang = facts.crate(roles.LANG)
+    n = 0
+    for f in lang.fns:
+        if "::ast::program::" not in f.path or f.kind == "promoted":
+            continue
+        if not field_touch(f, "ModuleInfo::use_alias_map"):
+            continue
+        sx = SymEx(f, max_paths=200, max_steps=12000, facts=facts)
+        try:
+            paths = sx.run(0)
+        except PathLimit:
+            paths = sx.paths
+        bad = None
+        seen_any = False
+        for p in paths:
+            if p.end != "return":
+                continue
+            alias_keys, vis_keys = [], []
+            for e in p.events:
+                if e[0] != "call" or not e[1].endswith("::insert") or len(e[2]) < 2:
+                    continue
+                recv = repr(e[2][0])
+                key = e[2][1]
+                if "ModuleInfo::use_alias_map" in recv:
+                    alias_keys.append(key)
+                elif "ModuleInfo::visibility_map" in recv:
+                    vis_keys.append(key)
+            for k in alias_keys:
+                if "mangle_qualified_name" in repr(k):
+                    seen_any = True
+                    if repr(k) not in [repr(v) for v in vis_keys]:
+                        bad = show(k)
+        root = f.root.split("::", 1)[1]
+        if not seen_any and not bad:
+            continue
+        n += 1
+        if bad:
+            ck.bad(R, "alias|%s" % root, "%s registers the module-qualified alias %s in use_alias_map on a path that records no visibility for it: the name resolves from outside the module although it was imported privately (lookups fail open when no visibility record exists)" % (f.short, bad[:80]), f.where())
+        else:
+            ck.ok(R, "alias|%s" % root, {"fn": root})
+    ck.floor(R, "qualified_alias_registrations", n, 1)
+
+
+def rule_hierarchy_predicate(ck, facts):
+    R = "C17.hierarchy"
+    ck.rule(R, "the predicate that waives the private-access error for code inside the same module hierarchy is a prefix test that constrains lengths (slice::starts_with, or an explicit length comparison of the two paths): an enclosing module is not 'inside' its nested module")
+    lang = facts.crate(roles.LANG)
+    fns = [f for f in lang.fns if RESOLVER_MOD in f.path and f.kind == "assoc" and f.local_ty(0) == "bool" and f.d["argc"] == 2 and "[interner::Symbol]" in f.local_ty(2)]
+    # role: called in a function that constructs PrivateMemberAccess
+    users = set()
+    for g in lang.fns:
+        if RESOLVER_MOD not in g.path:
+            continue
+        if any(s[KIND] == "a" and s[5][0] == "agg" and s[5][1][0] == "adt" and s[5][1][3] == "PrivateMemberAccess" for _, s in g.all_stmts()):
+            for _, t in g.calls():
+                users.add(callee(t))
+    preds = [f for f in fns if f.path in users]
+    ck.require(R, len(preds) >= 1, "anchor|hierarchy-predicate", "no bool predicate over a module path used next to PrivateMemberAccess found")
+    for f in preds:
+        fam = facts.family(roles.LANG, f.path)
+        names = [(callee(t) or "") for g in fam for _, t in g.calls()]
+        has_starts_with = any(n.endswith("::starts_with") for n in names)
+        # an explicit constraint relating the lengths of the two paths: a comparison both of whose operands are lengths
+        from ..cfg import DefIndex
+
+        len_cmp = False
+        for g in fam:
+            di = DefIndex(g)
+            for _, s in g.all_stmts():
+                if s[KIND] == "a" and s[5][0] == "bin" and s[5][1] in ("lt", "le", "gt", "ge", "eq") and s[5][4] == "usize":
+                    both = 0
+                    for o in (s[5][2], s[5][3]):
+                        r = di.resolve(o)
+                        if (r[0] == "call" and (callee(r[1]) or "").endswith("::len")) or (r[0] == "rv" and r[1][5][0] == "un" and r[1][5][1] == "ptrmeta"):
+                            both += 1
+                    if both == 2:
+                        len_cmp = True
+        key = "prefix-test|%s" % f.short.split("::")[-1]
+        if has_starts_with or len_cmp:
+            ck.ok(R, key, {"fn": f.short, "via": "starts_with" if has_starts_with else "explicit length comparison"})
+        else:
+            ck.bad(R, key, "%s decides 'same module hierarchy' without constraining the lengths of the two paths (element-wise comparison stops at the shorter one): code in an enclosing module is treated as being inside its nested modules and may read their private members" % f.short, f.where())
+
+
 def run(ck, facts, tier):
+    rule_alias_export(ck, facts)
+    rule_hierarchy_predicate(ck, facts)
     rule_register(ck, facts)
     rule_routes(ck, facts)
     rule_scope(ck, facts)
